@@ -130,7 +130,9 @@ def rules(P, R, prefix="C07"):
                            s0["sp"], "", "undecidable-shape: synchronizer select does not have the request/resume/retry arms", reason="undecidable-shape"):
                     blk = "sel(%s).Some" % ctx.term(recv_b["fut"])
                     body = recv_b["body"]
-                    waiters = [n for n in ir.walk(body) if n["k"] == "call" and n["fn"] == SYNC + "::waiter"]
+                    from ..common import waiter_fn
+                    _wfn = waiter_fn(prog, SYNC)
+                    waiters = [n for n in ir.walk(body) if n["k"] == "call" and _wfn is not None and n["fn"] == _wfn.path]
                     okw = False
                     for n in waiters:
                         a = [ctx.term(x) for x in n["args"]]
@@ -147,7 +149,7 @@ def rules(P, R, prefix="C07"):
                     R.judge(oka, prefix + ".Y2", key(sn, "request goes to the block author's address" + tag), body["sp"], "",
                             "the sync request is not sent to committee.address(block.author)")
                     # waiter: notify_read(wait_on) then Ok(deliver)
-                    wf = prog.fn(SYNC + "::waiter")
+                    wf = _wfn
                     if wf is not None:
                         wc = env.ctx(wf)
                         nr = [n for n in wf.nodes() if n["k"] == "mcall" and "store::Store::notify_read" in callee_paths(n)]
